@@ -29,6 +29,8 @@ func init() {
 			ruleCorsOnlyServed(c, "R6")
 			ruleHandlerLookup(c, "R7")
 			rulePoolReleaseOnce(c, "R8")
+			ruleNarrowingGuarded(c, "R9")
+			ruleIndexResetOnEveryPath(c, "R2c")
 		},
 	})
 }
